@@ -82,6 +82,16 @@ void ret(int t, long res) {
     out().raw("\"e\":\"OpRet\",\"t\":" + std::to_string(t) + ",\"op\":\"\",\"p\":[],\"id\":0,\"v\":0,\"res\":" + std::to_string(res));
 }
 
+// travels inside the subscribed callable: wherever the router copies or moves the callable (in the code as it stands: inside
+// subscribe()'s write-locked section) there is a scheduling point, so that another operation can try to get in right there
+struct YieldOnCopy {
+    YieldOnCopy() = default;
+    YieldOnCopy(const YieldOnCopy &) { vs::yield("copy"); }
+    YieldOnCopy(YieldOnCopy &&) noexcept { vs::yield("move"); }
+    YieldOnCopy &operator=(const YieldOnCopy &) = default;
+    YieldOnCopy &operator=(YieldOnCopy &&) = default;
+};
+
 void do_op(int t, const OpSpec &o) {
     if (o.nested) {
         {
@@ -96,7 +106,9 @@ void do_op(int t, const OpSpec &o) {
         case 'S': {
             call(t, "subscribe", o.pat, o.id, 0);
             int id = o.id;
-            auto sub = g_router->subscribe<int>(key_of(o.pat), [id](int v) {
+            YieldOnCopy yc;
+            auto sub = g_router->subscribe<int>(key_of(o.pat), [id, yc](int v) {
+                (void) yc;
                 int me = vs::self();
                 out().raw("\"e\":\"CbEnter\",\"t\":" + std::to_string(me) + ",\"op\":\"\",\"p\":[],\"id\":" + std::to_string(id) + ",\"v\":" + std::to_string(v) + ",\"res\":0");
                 vs::yield("cb");
@@ -234,9 +246,10 @@ void run_exec(const Execution &ex) {
             if (o.pat != "-" || o.kind == 'S') keys.emplace(o.pat, make_key(o.pat));
     keys.emplace("outer", make_key("outer"));
     g_keys = &keys;
+    if (rd_access_yield) rd_access_yield((int) ex.cfg.num("accy", 0), (unsigned) ex.cfg.num("seed", 1));
     Ctl ctl;
     ctl.mode = vs::BaseController::RANDOM;
-    ctl.max_steps = 20000;
+    ctl.max_steps = ex.cfg.num("accy", 0) ? 200000 : 20000;
     ctl.rng = vs::Rng((uint64_t) ex.cfg.num("seed", 1));
     ctl.spurious_per_1000 = (int) ex.cfg.num("spurious", 0);
     // a timed wait (none in the code as it stands) may time out at any moment: the holder may be arbitrarily slow
